@@ -207,7 +207,9 @@ def functions_component(ck, th, runner, tier):
         return
     names = sorted((n[2:], t[2:]) for n, t in res[0]["rows"])
     ck.note(comp, "function_names", len(names))
-    stmts = []
+    # minimized past failures run first, in every tier (F67: a typed constant expression that folds to NULL)
+    stmts = ["SELECT list_extract([1, 2], CAST(4 AS BIGINT)) AS r", "SELECT list_extract([1, 2], 4) + 1 AS r", "SELECT list_extract(['a'], 2) || 'x' AS r",
+             "SELECT list_extract([1.5, 2.5], 9) AS r", "SELECT list_extract([true], 3) AS r"]
     for name, ftype in names:
         if name in ("repeat", "generate_series", "unnest", "lpad", "rpad") or not name.replace("_", "").isalnum():
             continue
